@@ -208,7 +208,13 @@ func TestVerifN2NOpts(t *testing.T) {
 	whitelistJSONFields = nil
 	// precision of numbers through the whitelist (open finding `whitelist-rewrites-large-integers`)
 	whitelistJSONFields = []string{"id"}
-	for _, id := range []string{"9007199254740993", "1234567890123456789", "9007199254740992", "42"} {
+	wlIDs := []string{"1234567890123456789", "9007199254740992", "42"}
+	for _, l := range vfKnownLines("whitelist-rewrites-large-integers") { // committed replay: body={"id":N}
+		if strings.HasPrefix(l, `body={"id":`) {
+			wlIDs = append(wlIDs, strings.TrimSuffix(strings.TrimPrefix(l, `body={"id":`), "}"))
+		}
+	}
+	for _, id := range wlIDs {
 		raw := []byte(`{"id":` + id + `}`)
 		var js map[string]interface{}
 		json.Unmarshal(raw, &js)
